@@ -89,6 +89,15 @@ func runMuxStruct(c *mon.Ctx, prop string) {
 		if i%16 == 10 {
 			ops = churnScenario(r)
 		}
+		if i%16 == 12 {
+			ops = reservedPIDScenario(r)
+			c.Count("histories_asking_for_streams_on_reserved_pids")
+		}
+		if i%16 == 2 {
+			// a rejected call, repaired on the same adaptation field object, and repeated
+			ops = retryScenario(r)
+			c.Count("rejected_calls_repaired_on_the_same_object")
+		}
 		if i%16 == 6 || i%16 == 14 {
 			// remultiplexing: parsed PES and parsed first-packet adaptation fields handed to the Muxer as they are
 			if rops, n, _ := remuxScenario(r, i%16 == 14); n > 0 {
@@ -280,7 +289,13 @@ func edgeHeaders(r *rand.Rand, ops []HOp) int {
 			continue
 		}
 		oh := mon.Clone(h.OptionalHeader)
-		switch r.IntN(8) {
+		switch r.IntN(9) {
+		case 8:
+			// extension 2 data longer than its 7 bit length field can say, up to longer than any packet: a header that fits no
+			// packet has to be refused, there is no way to send it
+			oh.HasExtension, oh.HasExtension2 = true, true
+			oh.Extension2Data = gen.Bytes(r, []int{128, 130, 160, 172, 180, 200, 250, 255, 300}[r.IntN(9)])
+			oh.Extension2Length = uint8(len(oh.Extension2Data))
 		case 0:
 			oh.PTSDTSIndicator = astits.PTSDTSIndicatorIsForbidden
 		case 1:
@@ -479,6 +494,7 @@ func checkStructure(c *mon.Ctx, stage string, idx int64, hr *HistRun) {
 func checkContinuity(c *mon.Ctx, stage string, idx int64, hr *HistRun) {
 	data := map[string]any{"history": histSample(hr)}
 	last := map[uint16]int{}
+	first := map[uint16]int{} // counter of a packet without payload that was the first packet of its PID
 	count := map[uint16]int{}
 	tracked := func(pid uint16, cl *HCall) bool {
 		if pid == 0 || pid == 0x1000 {
@@ -533,11 +549,33 @@ func checkContinuity(c *mon.Ctx, stage string, idx int64, hr *HistRun) {
 			if pid == 0 {
 				sawTables = true
 			}
-			if !tracked(pid, cl) || !hasPayload {
+			if !tracked(pid, cl) {
+				continue
+			}
+			cc := int(raw[3] & 15)
+			if !hasPayload {
+				// a packet without payload does not advance the counter: it repeats the one of the last payload packet (ISO 13818-1
+				// 2.4.3.3), and when it is the first packet of the PID the first payload packet continues from it. A receiver
+				// that sees anything else reports a discontinuity or takes the next packet for a duplicate
+				c.Count("packets_without_payload_tracked")
+				if l, ok := last[pid]; ok {
+					if cc != l {
+						c.Violate("C05/counter-gap:es:packet-without-payload", stage, idx, fmt.Sprintf("call %d (%s): pid %#x packet without payload carries continuity_counter %d after %d (packet at offset %d)", k, cl.Op.Kind, pid, cc, l, o), data)
+						return
+					}
+				} else {
+					first[pid] = cc
+				}
 				continue
 			}
 			c.Count("payload_packets_tracked")
-			cc := int(raw[3] & 15)
+			if f, ok := first[pid]; ok {
+				delete(first, pid)
+				if _, seen := last[pid]; !seen && cc != (f+1)&15 {
+					c.Violate("C05/counter-gap:es:first-packet-without-payload", stage, idx, fmt.Sprintf("call %d (%s): pid %#x first payload packet carries continuity_counter %d after a packet without payload carrying %d (packet at offset %d)", k, cl.Op.Kind, pid, cc, f, o), data)
+					return
+				}
+			}
 			if l, ok := last[pid]; ok {
 				if cc != (l+1)&15 {
 					kind := "es"
